@@ -1,6 +1,6 @@
 SPECIFICATION TSpec
 CONSTANTS
-  Obs = {"O1", "O2"}
+  Obs = {"O1", "O2", "O3"}
   ObsOps = {"none"}
   ProdKinds = {"val"}
   WeakBudget = 1
